@@ -7,14 +7,17 @@ from specs.base import count
 
 @spec(opaque=True)
 def fpv_of(p: Profile) -> Dict(Real):
-    """first-place tallies of a profile (first_place_votes)"""
-    raise NotImplementedError
+    """first-place tallies of a profile (first_place_votes); uninterpreted for the solver, CPython runs the real function"""
+    from votekit.utils import first_place_votes
+    return first_place_votes(p)
 
 
 @spec(opaque=True)
 def ranking_of(d: Dict(Real)) -> Seq(CSet):
-    """candidates grouped by equal score, highest first (score_dict_to_ranking)"""
-    raise NotImplementedError
+    """candidates grouped by equal score, highest first (score_dict_to_ranking); uninterpreted for the solver, CPython runs the
+    real function"""
+    from votekit.utils import score_dict_to_ranking
+    return score_dict_to_ranking(d)
 
 
 @spec(opaque=True)
@@ -69,4 +72,4 @@ def fp_sorted(t: Seq(CSet), p: Profile) -> Bool:
 def score_by(f: Fn, p: Profile) -> Dict(Real):
     """what the score function f (a function-valued field whose identity the contract does not fix, e.g. Borda's
     partial(score_profile_from_rankings, ...)) returns for profile p: assumed to be a pure function of p (A-PUREFN)"""
-    raise NotImplementedError
+    return f(p)
